@@ -63,6 +63,26 @@ func (b c19Body) text() string {
 			return fmt.Sprintf(`{"bogus":{"status":{"a":0}},"status":{"a":%d},"children":[]}`, b.ID)
 		}
 		return fmt.Sprintf(`{"status":{"a":%d},"children":[],"bogus":1}`, b.ID)
+	case "trailing-space": // a document followed by white space only: still one well-formed document
+		if b.Alt {
+			return fmt.Sprintf("{\"status\":{\"a\":%d},\"children\":[]} \t\r\n ", b.ID)
+		}
+		return fmt.Sprintf("{\"status\":{\"a\":%d},\"children\":[]}\n", b.ID)
+	case "trailing-garbage": // a document followed by text (e.g. an appended error message)
+		if b.Alt {
+			return fmt.Sprintf("{\"status\":{\"a\":%d},\"children\":[]}\nerror: boom", b.ID)
+		}
+		return fmt.Sprintf(`{"status":{"a":%d},"children":[]} Internal Server Error`, b.ID)
+	case "two-documents":
+		if b.Alt {
+			return fmt.Sprintf("{\"status\":{\"a\":%d},\"children\":[]}\n{\"status\":{\"a\":0},\"children\":[]}\n", b.ID)
+		}
+		return fmt.Sprintf(`{"status":{"a":%d},"children":[]}{"status":{"a":0},"children":[]}`, b.ID)
+	case "stray-brace":
+		if b.Alt {
+			return fmt.Sprintf(`{"status":{"a":%d},"children":[]} ]`, b.ID)
+		}
+		return fmt.Sprintf(`{"status":{"a":%d},"children":[]}}`, b.ID)
 	case "both":
 		if b.Alt {
 			return fmt.Sprintf(`{"bogus":1,"status":{"a":0},"status":{"a":%d},"children":[]}`, b.ID)
@@ -83,7 +103,8 @@ func (b c19Body) text() string {
 
 func (b c19Body) coq() string {
 	cl := map[string]string{"valid": "BValid", "unknown": "BUnknownField", "duplicate": "BDuplicateField", "invalid": "BInvalidJson",
-		"both": "BUnknownAndDuplicate"}[b.Class]
+		"both": "BUnknownAndDuplicate", "trailing-space": "BValidTrailingSpace", "trailing-garbage": "BTrailingGarbage",
+		"two-documents": "BTwoDocuments", "stray-brace": "BStrayBrace"}[b.Class]
 	return fmt.Sprintf("(mkBody %s %s)", vh.CoqZ(b.ID), cl)
 }
 
@@ -597,8 +618,15 @@ func (cs *c19Case) validate() error {
 			return fmt.Errorf("body id %d names two texts", b.ID)
 		}
 		byID[b.ID] = txt
-		if got := c19LibraryClass(txt); got != b.Class {
-			return fmt.Errorf("library classifies %q as %s, the case says %s", txt, got, b.Class)
+		want := b.Class
+		switch b.Class {
+		case "trailing-space":
+			want = "valid"
+		case "trailing-garbage", "two-documents", "stray-brace":
+			want = "invalid" // UnmarshalStrict decodes the whole text: err != nil
+		}
+		if got := c19LibraryClass(txt); got != want {
+			return fmt.Errorf("library classifies %q as %s, the case says %s (%s)", txt, got, b.Class, want)
 		}
 	}
 	seenInit := map[int]bool{}
@@ -689,7 +717,8 @@ var c19Statuses = []int{200, 201, 204, 304, 400, 404, 412, 429, 500, 503}
 var c19RAShapes = []c19Reply{
 	{RA: "absent"}, {RA: "num", RAN: 7}, {RA: "date", RAN: 3}, {RA: "garbage"}, {RA: "huge"},
 }
-var c19Classes = []string{"valid", "unknown", "duplicate", "invalid", "both"}
+var c19Classes = []string{"valid", "unknown", "duplicate", "invalid", "both",
+	"trailing-space", "trailing-garbage", "two-documents", "stray-brace"}
 var c19Modes = []string{"nil", "loose", "strict"}
 var c19CacheStates = []string{"empty", "hit", "expired-before", "expired-mid"}
 
@@ -837,7 +866,7 @@ func c19Sched(n, idx int) *c19Case {
 // calls that are answered 304 / 412 for exactly that ETag, so that the offending
 // body is replayed from the cache.  x mode x initial cache x {sequential through
 // newWebhookExecutor | follow-ups overlapping, through NewWebhookExecutor}.
-var c19ReplayClasses = []string{"unknown", "duplicate", "both"}
+var c19ReplayClasses = []string{"unknown", "duplicate", "both", "trailing-garbage", "two-documents", "stray-brace", "trailing-space"}
 var c19ReplayFollow = [][]int{{304}, {412}, {304, 412}, {412, 304}}
 
 func c19NumReplays() int {
@@ -873,6 +902,34 @@ func c19Replay(idx int) *c19Case {
 	}
 	if variant == 1 {
 		cs.Public = true
+		cs.TimeoutSec = 600
+	}
+	return cs
+}
+
+// expired-between family (always run in full): the cached entry whose ETag the call
+// sent is gone (TTL elapsed / janitor) when the 304 / 412 answer arrives
+// x ETag header on that answer y/n x mode x way of expiring x constructor;
+// plus the same with a second key's entry still present.
+func c19NumExpiredMid() int { return 2 * 2 * len(c19Modes) * 2 * 2 }
+
+func c19ExpiredMid(idx int) *c19Case {
+	pick := func(n int) int { r := idx % n; idx /= n; return r }
+	status := []int{304, 412}[pick(2)]
+	hdr := pick(2) == 1
+	mode := c19Modes[pick(len(c19Modes))]
+	how := []string{"ttl", "delete"}[pick(2)]
+	public := pick(2) == 1
+	rp := c19Reply{Status: status, RA: "absent", Body: c19Body{ID: 20, Class: "valid"}}
+	if hdr {
+		rp.ETag = "e2"
+	}
+	cs := &c19Case{Family: "expired-between", Etag: true, Mode: mode, NowFracMs: 250, ExpireHow: how, CleanupSec: -1, TimeoutSec: -1,
+		CacheState: "expired-mid", Public: public,
+		Init:  []c19Init{{Key: 7, ETag: "e1", Body: c19B1}, {Key: 8, ETag: "e1", Body: c19Body{ID: 110, Class: "valid"}}},
+		Calls: []c19Call{{Key: 7, Reply: rp}},
+		Sched: []c19Ev{{Call: 0}, {Expire: true, Key: 7}, {Call: 0}, {Call: 0}}}
+	if public {
 		cs.TimeoutSec = 600
 	}
 	return cs
@@ -1084,6 +1141,13 @@ func c19Corpus() []*c19Case {
 		mk(true, "strict", nil, []c19Call{{Key: 7, Reply: bothE}, {Key: 7, Reply: r412}, {Key: 7, Reply: r304}}, steps(0, 0, 0, 1, 1, 1, 2, 2, 2)),
 		mk(true, "loose", nil, []c19Call{{Key: 7, Reply: bothE}, {Key: 7, Reply: r412}}, steps(0, 0, 0, 1, 1, 1)),
 		mk(false, "strict", nil, one(c19Reply{Status: 200, RA: "absent", Body: c19Body{ID: 54, Class: "both", Alt: true}}), c19Steps3(0)))
+	// a document followed by more bytes is undecodable in every mode (white space only is fine)
+	for _, cl := range []string{"trailing-garbage", "two-documents", "stray-brace", "trailing-space"} {
+		for _, mode := range []string{"nil", "loose", "strict"} {
+			out = append(out, mk(mode == "loose", mode, nil,
+				one(c19Reply{Status: 200, RA: "absent", Body: c19Body{ID: c19ClassID(9, cl), Class: cl, Alt: mode == "strict"}}), c19Steps3(0)))
+		}
+	}
 	pub4 := *out[5]
 	pub4.Public, pub4.TimeoutSec, pub4.CleanupSec = true, 600, -1
 	out = append(out, &pub4)
@@ -1116,8 +1180,10 @@ func TestVerif_C19(t *testing.T) {
 	// VERIF_PROP=C17h: the same cases serve property C17's clause on parallel hook calls (the
 	// interleaved calls of one hook give each call what it gets alone); same check function
 	prop := "C19"
-	if os.Getenv("VERIF_PROP") == "C17h" {
-		prop = "C17h"
+	// VERIF_PROP=C13h: the same cases judged for property C13 (no status code, header
+	// combination, body or cache state makes Call panic: a recovered panic is PROPFAIL "panic")
+	if p := os.Getenv("VERIF_PROP"); p == "C17h" || p == "C13h" {
+		prop = p
 	}
 	w, err := vh.NewCaseWriter(env.OutDir, prop, header, 400)
 	if err != nil {
@@ -1272,6 +1338,8 @@ func TestVerif_C19(t *testing.T) {
 			cs = c19Sched(3, rf.Case.Index)
 		case "strict-replay":
 			cs = c19Replay(rf.Case.Index)
+		case "expired-between":
+			cs = c19ExpiredMid(rf.Case.Index)
 		}
 		if cs == nil {
 			t.Fatalf("replay file %s holds no C19 case", env.Replay)
@@ -1302,9 +1370,18 @@ func TestVerif_C19(t *testing.T) {
 			emit(fmt.Sprintf("r%d", i), c19Replay(i), 0, i)
 		}
 		w.Counts["enumeration-strict-replay"] = nR
+		nE := c19NumExpiredMid()
+		for i := 0; i < nE; i++ {
+			emit(fmt.Sprintf("e%d", i), c19ExpiredMid(i), 0, i)
+		}
+		w.Counts["enumeration-expired-between"] = nE
 		nS, n2, n3 := c19NumSingles(), c19NumScheds(2), c19NumScheds(3)
 		nRandom := n / 10
-		exhaustive := nS+n2+n3+nRandom <= n
+		// the enumerations fit: take all of them and give the random family what is left of n
+		exhaustive := nS+n2+n3 <= n*95/100
+		if exhaustive && nRandom > n-(nS+n2+n3) {
+			nRandom = n - (nS + n2 + n3)
+		}
 		sample := func(prefix string, total, want int, mk func(int) *c19Case) {
 			if exhaustive || want >= total {
 				for i := 0; i < total; i++ {
